@@ -105,6 +105,9 @@ pub struct ThreadsCfg {
     pub with_suffix: bool,
     /// combine three threads (connection, writer, reader) as well as pairs
     pub triples: bool,
+    /// a half may perform two consecutive operations on its thread (two writes / two reads: a task
+    /// that continues after a successful call) against one connection action
+    pub doubles: bool,
 }
 
 pub fn explore_threads(ctx: &Ctx, d: &Driver, tc: &ThreadsCfg, out: &mut Outcome) {
@@ -156,6 +159,20 @@ pub fn explore_threads(ctx: &Ctx, d: &Driver, tc: &ThreadsCfg, out: &mut Outcome
             for b in &wops {
                 for c in &rops {
                     combos.push(vec![a.clone(), b.clone(), c.clone()]);
+                }
+            }
+        }
+    }
+    if tc.doubles {
+        for a in &dops {
+            for b1 in wops.iter().filter(|x| matches!(x, Act::Write(_))) {
+                for b2 in wops.iter().filter(|x| matches!(x, Act::Write(_) | Act::Flush)) {
+                    combos.push(vec![a.clone(), b1.clone(), b2.clone()]);
+                }
+            }
+            for c1 in rops.iter().filter(|x| matches!(x, Act::Read(_))) {
+                for c2 in rops.iter().filter(|x| matches!(x, Act::Read(_))) {
+                    combos.push(vec![a.clone(), c1.clone(), c2.clone()]);
                 }
             }
         }
@@ -248,11 +265,12 @@ pub fn explore_threads(ctx: &Ctx, d: &Driver, tc: &ThreadsCfg, out: &mut Outcome
     p.distinct_nontrivial = nontrivial;
     p.distinct_outcomes = p.states.min(100_000);
     p.bound = format!(
-        "{} base states (all histories of <= {} actions, merged by fingerprint) x {} combinations of concurrent operations (connection x write half x read half{}); every interleaving of the threads' critical sections with {} (longest schedule {} decisions){}; {} applicable cases, {} with more than one distinct outcome",
+        "{} base states (all histories of <= {} actions, merged by fingerprint) x {} combinations of concurrent operations (connection x write half x read half{}{}); every interleaving of the threads' critical sections with {} (longest schedule {} decisions){}; {} applicable cases, {} with more than one distinct outcome",
         bases.len(),
         tc.base_depth,
         combos.len(),
         if tc.triples { ", pairs and triples" } else { ", pairs" },
+        if tc.doubles { ", a half may do two consecutive operations" } else { "" },
         match tc.preemption_bound {
             Some(b) => format!("<= {b} preemptions"),
             None => "any number of preemptions".into(),
